@@ -1,8 +1,8 @@
 #!/bin/sh
-# runall.sh <tier> <seed>...   runs every registered check, prints one line per check
+# runall.sh <tier> <seed>...   runs every registered check (or those in VERIF_IDS="12 08 ..."), prints one line per check
 tier=$1; shift
 for seed in "$@"; do
-  for i in 01 02 03 04 05 06 07 08 09 10 11 12 13 14 15 16 17 18 19; do
+  for i in ${VERIF_IDS:-01 02 03 04 05 06 07 08 09 10 11 12 13 14 15 16 17 18 19}; do
     s=$(date +%s)
     out=$(VERIF_SEED=$seed bin/verifcheck C$i --tier $tier 2>&1); rc=$?
     e=$(date +%s)
